@@ -124,6 +124,50 @@ fn check_texts(ctx: &Ctx, privt: &str, pubt: &str, expect_pk: Option<&[u8; 32]>,
     out
 }
 
+/// A printed pair as such (whatever produced it): the public text must be the public key of the private text, and the
+/// pair must be usable in every role. Expected key: derived here from the private text with ring, independently of vpncloud.
+pub fn check_pair(ctx: &Ctx, privt: &str, pubt: &str, what: &str) -> Vec<Viol> {
+    ctx.eval();
+    let case = json!({"kind": "pair", "private": privt, "public": pubt});
+    let mut out = vec![];
+    let mut seed = match from_base62(privt) {
+        Ok(v) if v.len() <= 32 => v,
+        _ => {
+            out.push(Viol::new("printed-private-key-not-base62-of-32-bytes", format!("{}: {:?}", what, privt), case));
+            return out;
+        }
+    };
+    while seed.len() < 32 {
+        seed.insert(0, 0);
+    }
+    let mut sd = [0u8; 32];
+    sd.copy_from_slice(&seed);
+    let (_, _, pk) = texts_from_seed(&sd);
+    let mut printed = match from_base62(pubt) {
+        Ok(v) if v.len() <= 32 => v,
+        _ => {
+            out.push(Viol::new("printed-public-key-not-base62-of-32-bytes", format!("{}: {:?}", what, pubt), case));
+            return out;
+        }
+    };
+    while printed.len() < 32 {
+        printed.insert(0, 0);
+    }
+    if printed[..] != pk[..] {
+        out.push(Viol::new(
+            "printed-public-key-is-not-the-key-of-the-printed-private-key",
+            format!("{}: private {:?} has public key {}, printed public key is {}", what, privt, hex(&pk), hex(&printed)),
+            case.clone(),
+        ));
+    }
+    out.extend(check_texts(ctx, privt, pubt, Some(&pk), &case, what));
+    if pk[0] == 0 || sd[0] == 0 {
+        ctx.class("pair:leading-zero-byte");
+    }
+    ctx.nontrivial(&("pair", privt));
+    out
+}
+
 pub fn check_seed(ctx: &Ctx, seed: &[u8; 32]) -> Vec<Viol> {
     ctx.eval();
     let (privt, pubt, pk) = texts_from_seed(seed);
@@ -332,6 +376,26 @@ pub fn run(ctx: &Ctx) {
     });
     ctx.subspace("random seeds (about 1/256 have a public key starting with a zero byte)", nrand, false);
 
+    // (a') the random branch of key generation itself (what `genkey` without a password and the wizard print): every
+    // drawn pair must be a pair. The draws come from SystemRandom and cannot be replayed; the printed texts are the
+    // reproducible unit (replay case = the pair).
+    let ndraw: u64 = ctx.tier.pick(20_000, 200_000);
+    ctx.par_range_chunked(ndraw, 250, |_, i| {
+        let (privt, pubt) = match catch(|| Crypto::generate_keypair(None)) {
+            Ok(p) => p,
+            Err(p) => {
+                ctx.violation(Viol::new(format!("generate-keypair-{}", p.sig()), p.msg, json!({"kind": "draw"})));
+                return;
+            }
+        };
+        let v = check_pair(ctx, &privt, &pubt, "random key generation");
+        if i < 2 {
+            ctx.sample("random-pair", || json!({"public": pubt}));
+        }
+        ctx.report(v);
+    });
+    ctx.subspace("pairs drawn by the random branch of generate_keypair (about 2/256 have a text form that lost a leading zero byte)", ndraw, false);
+
     // (b) passwords
     let dict = password_dict();
     ctx.par_range(dict.len() as u64, |_, i| {
@@ -360,6 +424,7 @@ pub fn replay(ctx: &Ctx, case: &Value) {
             }
             check_seed(ctx, &seed)
         }
+        Some("pair") => check_pair(ctx, case["private"].as_str().unwrap_or(""), case["public"].as_str().unwrap_or(""), "saved pair"),
         Some("password") => check_password(ctx, case["password"].as_str().unwrap_or(""), case["other"].as_str().unwrap_or("")),
         Some("codec") => check_codec(ctx, &unhex(case["bytes"].as_str().unwrap_or(""))),
         _ => vec![],
